@@ -119,6 +119,9 @@ type gen struct {
 	step     int
 	height   map[int]uint64
 	delEmpty bool // deleteEmptyObjects: a chain-configuration constant (the application hard-codes false)
+	// hot: per state object, the (account, slot) of its last storage write. Storage writes return to it
+	// often, so that one slot goes through write / flush / clear / snapshot / rewrite / revert sequences.
+	hot map[int][2]int
 }
 
 func (g *gen) pickAcct(X *sobj, want func(a int) bool) int {
@@ -222,6 +225,16 @@ func (g *gen) mutator(X *sobj) op {
 		}
 	case x < 75:
 		o.K, o.A, o.S, o.V = "store", g.pickAcct(X, nil), r.Intn(nSlots), g.value()
+		if h, ok := g.hot[X.id]; ok && r.Chance(0.4) {
+			o.A, o.S = h[0], h[1]
+			if cur := st.GetState(u.Accts[o.A], u.Slots[o.S]); len(cur) > 0 && r.Chance(0.4) {
+				o.V = "" // clear a slot that holds something
+			}
+		}
+		if g.hot == nil {
+			g.hot = map[int][2]int{}
+		}
+		g.hot[X.id] = [2]int{o.A, o.S}
 	case x < 80:
 		o.K, o.N = "create", uint64(r.Intn(3))
 		if r.Chance(0.6) {
